@@ -329,6 +329,7 @@ type Job struct {
 	KindFilter   func(kind string) bool
 	Setup        func(tr *Tr, a *Act, st *State, args []Term)
 	CheckPost    bool
+	IsRoot       func(fn *ssa.Function) bool
 }
 
 // translate builds the VC for one root function.
@@ -336,13 +337,17 @@ func (e *Engine) translate(job *Job) *Tr {
 	fn := job.Fn
 	tr := &Tr{eng: e, root: fn, comps: map[string]*Component{}, oblCount: map[string]int{}, panicMode: job.PanicMode, frameMode: job.Frame,
 		initHeap: map[string]*HeapV{}, usedStubs: map[string]bool{}, inlined: map[string]bool{}, havocked: map[string]bool{},
-		declared: map[string]bool{}, unfolded: map[string]bool{}, usedContracts: map[string]bool{}, clauseFilter: job.ClauseFilter}
+		declared: map[string]bool{}, unfolded: map[string]bool{}, usedContracts: map[string]bool{}, clauseFilter: job.ClauseFilter, isRoot: job.IsRoot}
+	tr.inlineBudget = 200 - 2*len(fn.Blocks)
+	if tr.inlineBudget < 0 {
+		tr.inlineBudget = 0
+	}
 	tr.alloc0 = tr.freshConst("alloc0", "Int")
 	tr.assume(app(">=", tr.alloc0, "0"), "allocation counter non-negative")
 	a := tr.newAct(fn, nil)
 	tr.rootAct = a
 	tr.contract = a.contract
-	st := &State{reach: "true", heap: map[string]*HeapV{}, alloc: tr.alloc0, defers: map[*ssa.Defer]Term{}}
+	st := &State{reach: "true", heap: map[string]*HeapV{}, alloc: tr.alloc0, defers: map[*ssa.Defer]Term{}, owned: map[string]ownedCell{}}
 	// parameters: arbitrary values that exist at entry
 	args := make([]Term, len(fn.Params))
 	for i, p := range fn.Params {
